@@ -86,7 +86,7 @@ prop('C08',
      'character-for-character equality of output and input; alignment of the output against the input.')
 
 prop('C01',
-     [CV.r08_a_adjacent, CV.r08_b_wellformed, CV.r08_d, CV.r08_e_parse_only, CV.t_agree, CV.r01_a, RO.r11_c, RO.r11_e, L_SKIP, T.r19_b, T.r19_i, T.r19_c, T.r19_f],
+     [CV.r08_a_adjacent, CV.r08_b_wellformed, CV.r08_d, CV.r08_e_parse_only, CV.t_agree, CV.r01_a, RO.r11_c, RO.r11_e, L_SKIP, T.r19_b, T.r19_i, T.r19_c, T.r19_f, PO.r13_c, PO.r13_e, PO.r13_g],
      'The conservation skeleton of C08 restricted to what a well-formed document reaches, plus raw capture of '
      'skipped-environment bodies and rollback completeness of the tokenizer (the spacer rule restores the cursor '
      'exactly when it emits nothing).',
@@ -97,7 +97,7 @@ prop('C01',
 
 
 prop('C10',
-     [T.r10_a, T.r10_b, S.r10_c],
+     [T.r10_a, T.r10_b, S.r10_c, T.r19_a_precondition],
      'Assertions on the tokenizer dispatch table (abstract interpretation, see C19) for the windows that start with '
      'a backslash or a percent sign, plus a rule on the set of token kinds the reader branches on.',
      'R10.a a backslash followed by %% or by another backslash is always consumed together with it by an earlier rule '
@@ -109,7 +109,7 @@ prop('C10',
      'environments (excluded by the precondition of C11).')
 
 prop('C12',
-     [T.r12_a, T.r12_f, S.r12_b, CV.t_agree, S.r12_c, S.r12_d, S.r12_e, L_MATH, T.r09_struct],
+     [T.r12_a, T.r12_f, S.r12_b, CV.t_agree, S.r12_c, S.r12_d, S.r12_e, L_MATH, T.r09_struct, T.r19_a_precondition],
      'Assertions on the tokenizer dispatch table for $ / $$ / backslash-bracket windows, agreement of the kind <-> '
      'class <-> delimiter tables with the tokenizer, def-use rules on the math-region reader and the dispatcher, and '
      'table rules for operators and sizing commands.',
@@ -120,7 +120,7 @@ prop('C12',
      'the exact body text of a region; pairing when bodies contain the same switch.')
 
 prop('C09',
-     [T.r09_a, S.r09_b, S.r09_c, S.r09_d, S.r09_g, S.r09_h, S.r09_e, T.r09_struct, S.r12_d],
+     [T.r09_a, S.r09_b, S.r09_c, S.r09_d, S.r09_g, S.r09_h, S.r09_e, T.r09_struct, S.r12_d, T.r09_i, T.r19_a_precondition],
      'Assertions on the tokenizer dispatch table for whitespace and delimiter windows, the cursor-movement summary '
      'of the whitespace reader, conservation of the whitespace token on the break paths of the argument loops, a '
      'taint rule on the whitespace variable and def-use rules on the group reader.',
@@ -132,7 +132,7 @@ prop('C09',
 
 
 prop('C07',
-     [RO.r07_a, RO.r07_b, CV.r07_d, RO.r07_e],
+     [RO.r07_a, RO.r07_b, CV.r07_d, RO.r07_e, B.r20_c],
      'Role inference by data flow from the public entry point (which parameters carry the tolerance option), a '
      'threading rule on every resolved call edge, must-flow along the recursion through environments, brace and '
      'bracket arguments, and a non-interference rule: every condition that mentions the option is evaluated for '
@@ -164,7 +164,7 @@ prop('C02',
 
 
 prop('C13',
-     [T.r19_a, T.r19_e, T.r19_h, PO.r13_b, PO.r13_c, PO.r13_d, PO.r13_e, PO.r13_f],
+     [T.r19_a, T.r19_e, T.r19_h, PO.r13_b, PO.r13_c, PO.r13_d, PO.r13_e, PO.r13_f, PO.r13_g],
      'Provenance of positions from the categoriser to the node constructors: the tokenizer abstract interpretation '
      'gives the provenance of every token position; a symbolic (affine) evaluation of the position argument of every '
      'Token built by the Token arithmetic methods; the conservation engine records, for every node the reader builds, '
@@ -177,7 +177,7 @@ prop('C13',
      'in the last line, CR handling).')
 
 prop('C14',
-     [TR.r14_a, TR.r14_b, AR.r18_d, TR.r03_c, CV.r08_e],
+     [TR.r14_a, TR.r14_b, AR.r18_d, TR.r03_c, CV.r08_e, AR.r18_e],
      'MRO-resolved def-use of the delimiters of named environments, write-through rules for the node setters, the '
      'slice type of argument lists, the live-name match predicate and the lossless-serialiser rule.',
      'R14.a \\begin/\\end of a named environment are computed from its current name and the serialiser reads them '
@@ -187,7 +187,7 @@ prop('C14',
      'that nothing else changes; re-parse equivalence.')
 
 prop('C03',
-     [TR.r03_a, TR.r03_b, TR.r03_c, TR.r04_a, TR.r04_b],
+     [TR.r03_a, TR.r03_b, TR.r03_d, TR.r03_c, TR.r04_a, TR.r04_b],
      'Class-lattice evaluation of the view predicates and def-use rules on the traversal and search methods.',
      'R03.a descendants is the closure of contents over children; R03.b find/count/attribute access delegate to '
      'find_all with the query passed through, find_all filters the descendant enumeration by the match predicate; '
@@ -196,7 +196,7 @@ prop('C03',
      'exactness of result lists; match semantics of full-expression queries beyond the comparison performed.')
 
 prop('C04',
-     [TR.r04_a, TR.r04_b, TR.r04_c, TR.r04_d, TR.r03_a, TR.r15_d],
+     [TR.r04_a, TR.r04_b, TR.r04_c, TR.r04_d, TR.r03_a, TR.r15_d, T.r19_i],
      'Class-lattice evaluation of the view predicates and def-use rules on the node views.',
      'R04.a contents drops only whitespace-only text, children admits exactly the non-text expression classes, no '
      'view reorders; R04.b both containers are enumerated; R04.c every wrapper has its parent set before it is '
@@ -213,7 +213,7 @@ prop('C05',
      'the splice equation itself (the resulting text equals the original with the span substituted).')
 
 prop('C15',
-     [TR.r05_a, TR.r05_e, TR.r05_d, TR.r05_c, TR.r15_a, TR.r15_b, TR.r15_c, TR.r15_d, ISO.r17_g],
+     [TR.r05_a, TR.r05_e, TR.r05_d, TR.r05_c, TR.r15_a, TR.r15_b, TR.r15_c, TR.r15_d, ISO.r17_g, AR.r18_a, AR.r18_f, AR.r18_g, AR.r18_e, CV.r08_e],
      'Effect (frame) analysis of the mutators, a no-memoisation rule on the views, a kind-flow analysis of what can '
      'enter a content list through the public mutators, and totality of the text view over those kinds.',
      'R05.a/c targeted look-up by identity and ordered multi-insert; R15.a a mutator writes only its receiver\'s '
@@ -235,7 +235,7 @@ prop('C17',
      'equality of results across input forms (chunks, files) beyond the flattening step.')
 
 prop('C18',
-     [AR.r18_a, AR.r18_b, AR.r18_c, AR.r18_f, AR.r18_g, AR.r18_d, AR.r18_e],
+     [AR.r18_a, AR.r18_b, AR.r18_c, AR.r18_f, AR.r18_g, AR.r18_h, AR.r18_d, AR.r18_e],
      'Path-wise effect/typestate analysis of the TexArgs mutators (list proper vs. shadow sequence), signature '
      'comparison with list, and def-use of the serialisers.',
      'R18.a every named list operation is overridden and keeps the two sequences paired; R18.b the signatures accept '
